@@ -1,24 +1,24 @@
 CONSTANTS
   Procs = {1}
-  Clients = {"c1", "c2", "c3"}
+  Clients = {"c1"}
   Forms = {"v4"}
   CCs = {}
   SVs = {}
   Shorts = {}
   Protos = {"udp"}
-  Questions = {"q1", "fresh"}
-  Entries = {"msg", "wire", "inline"}
-  Exempts = {"loopback", "internal"}
+  Questions = {"q1"}
+  Entries = {"msg"}
+  Exempts = {"internal"}
   Odds = {FALSE}
   Burst = 2
   StoreCap = 2
-  EntryBurst = 0
+  EntryBurst = 1
   BigQs = {}
-  MaxOps = 4
+  MaxOps = 3
   MaxPend = 1
   MaxAge = 2
-  TickSet = {1, 2}
-  CleanSet = {1, 2}
+  TickSet = {}
+  CleanSet = {}
   Atomic = "call"
   KeyByForm = TRUE
   ChargeOnReplay = FALSE
@@ -26,11 +26,10 @@ CONSTANTS
   ReuseEvicted = FALSE
   SharedKey = FALSE
   ChargeBeforeFit = FALSE
-  LimitInternal = FALSE
+  LimitInternal = TRUE
   Aliases = {}
   AliasTarget = "q1"
 SPECIFICATION Spec
-INVARIANTS TypeOK OneChargePerQuestion DropIsSilent ClientWithinBudget NoSharedBucket RememberedIsOwn ExemptNeverLimited InternalNeverLimited
-  ReplyCookieIsOwn AnswerCarriesCookie BadCookieSound VerifiedIsFree HandoffOnlyInline SameOutcomeAcrossEntries
+INVARIANTS InternalNeverLimited
 PROPERTIES DropLeavesNoTrace EvictionOnlyResets BucketIsolation ExemptUntouched TokensNeverRefillWithoutTime
 CHECK_DEADLOCK FALSE
